@@ -390,8 +390,14 @@ static void op_ecpgroup(int argc, char** argv)
 		v = ecpIsValid(ec, stack);
 		s = ecpSeemsValidGroup(ec, stack);
 		g = ecpIsSafeGroup(ec, (size_t)u_arg(argv[8]), stack);
-		h = ecHasOrderA(ec->base, ec, ec->order, ec->f->n + 1, stack);
-		printf("1 %d %d %d %d", v, s, g, h);
+		/* the order of a point is only asked for points of a valid curve */
+		if (v && ecpIsOnA(ec->base, ec, stack))
+		{
+			h = ecHasOrderA(ec->base, ec, ec->order, ec->f->n + 1, stack);
+			printf("1 %d %d %d %d", v, s, g, h);
+		}
+		else
+			printf("1 %d %d %d x", v, s, g);
 	}
 	blobClose(state);
 	hex_free(p, no); hex_free(a, la); hex_free(b, lb); hex_free(x, lx); hex_free(y, ly); hex_free(q, lq);
